@@ -14,7 +14,7 @@ Three things are compared for every command of every history:
                  archive alone, and the same command on a copy of the archive
                  with no index gives the same result (index transparency).
 """
-import contextlib, copy, glob, gzip, hashlib, io, json, os, re, shutil, tarfile
+import contextlib, copy, functools, glob, gzip, hashlib, io, json, os, re, shutil, tarfile
 from datetime import datetime, timezone
 
 from vlib import coq, core, coqlit as L
@@ -150,11 +150,6 @@ def ds_select(exprs, arts):
             keyed = [(b, ds_string(["var", x["sort"] or "build.date"], arts[b])) for b in matched]
             asc = x["dir"] == "ASC"
 
-            def rank(k):     # smaller = better; undefined last
-                return (1, ()) if k is None else (0, tuple(ord(c) if asc else -ord(c) for c in k) + ((0,) if asc else (1,)))
-            # DESC on strings: longer string with equal prefix is larger -> better; encode by explicit compare instead
-            import functools
-
             def better(a, b):
                 ka, kb = a[1], b[1]
                 if ka is None and kb is None:
@@ -218,7 +213,7 @@ def render(e, rng=None):
         return quote(e[1])
     if k == "var":
         return e[1]
-    extra = (lambda: rng is not None and rng.random() < 0.15)
+    extra = (lambda: rng is not None and rng.random() < 0.06)
     if k == "not":
         a = render(e[1], rng)
         if lvl(e[1]) > 1 or (lvl(e[1]) > 0 and extra()):
@@ -253,14 +248,22 @@ def render_rexpr(x, rng=None):
 
 
 # ------------------------------------------------------------------ generators
+SOLID_FIELDS = ["meta.package", "meta.recipe", "build.date", "build.machine", "build.date"]
+
+
 def gen_atom_cmp(rng, vals):
-    f = rng.choice(FIELDS if rng.random() < 0.96 else ERR_FIELDS)
-    op = rng.choice(["==", "==", "==", "!=", "<", ">=", ">", "<="])
+    if rng.random() < 0.3:
+        # ordering comparison: mostly on fields every artifact has (an undefined operand is a query error)
+        op = rng.choice(["<", ">=", ">", "<="])
+        f = rng.choice(SOLID_FIELDS) if rng.random() < 0.93 else rng.choice(FIELDS)
+    else:
+        op = rng.choice(["==", "==", "!="])
+        f = rng.choice(FIELDS if rng.random() < 0.985 else ERR_FIELDS)
     r = rng.random()
-    if r < 0.8:
+    if r < 0.85:
         rhs = ["lit", rng.choice(vals)]
-    elif r < 0.92:
-        rhs = ["var", rng.choice(FIELDS)]
+    elif r < 0.93:
+        rhs = ["var", rng.choice(SOLID_FIELDS if op not in ("==", "!=") else FIELDS)]
     else:
         rhs = ["lit", "".join(rng.choice("ab\"\\ é1") for _ in range(rng.randint(0, 3)))]
     a, b = ["var", f], rhs
@@ -277,7 +280,7 @@ def gen_ex(rng, depth, vals):
         return ["not", gen_ex(rng, depth - 1, vals)]
     if r < 0.78:
         return ["and", gen_ex(rng, depth - 1, vals), gen_ex(rng, depth - 1, vals)]
-    if r < 0.95:
+    if r < 0.975:
         return ["or", gen_ex(rng, depth - 1, vals), gen_ex(rng, depth - 1, vals)]
     # ill-typed shapes: operator in string context, string/field in boolean context
     s = rng.random()
@@ -291,13 +294,13 @@ def gen_ex(rng, depth, vals):
 
 
 def gen_rexpr(rng, vals):
-    if rng.random() < 0.03:
+    if rng.random() < 0.02:
         return {"bad": rng.choice(BAD_TEXTS)}
-    x = {"ast": gen_ex(rng, rng.choice([0, 0, 1, 1, 2, 3]), vals), "limit": None, "sort": None, "dir": None}
+    x = {"ast": gen_ex(rng, rng.choice([0, 0, 0, 0, 1, 1, 1, 2, 2, 3]), vals), "limit": None, "sort": None, "dir": None}
     if rng.random() < 0.55:
-        x["limit"] = rng.choice([1, 1, 1, 2, 2, 3, 4, 30]) if rng.random() < 0.97 else 0
+        x["limit"] = rng.choice([1, 1, 1, 2, 2, 3, 4, 30]) if rng.random() < 0.985 else 0
         if rng.random() < 0.7:
-            x["sort"] = rng.choice(SORT_FIELDS) if rng.random() < 0.97 else rng.choice(ERR_FIELDS)
+            x["sort"] = rng.choice(SORT_FIELDS) if rng.random() < 0.985 else rng.choice(ERR_FIELDS)
             if rng.random() < 0.7:
                 x["dir"] = rng.choice(["ASC", "DESC"])
     x["text"] = render_rexpr(x, rng)
@@ -397,6 +400,39 @@ def gen_history(rng, maxn=12, ncmd=7):
 
 
 # ------------------------------------------------------------------ the real archive
+_FACTS = None
+
+
+def source_facts():
+    global _FACTS
+    if _FACTS is None:
+        _FACTS = consts_c19.facts()
+    return _FACTS
+
+
+class _Sqlite3Proxy:
+    """sqlite3 as seen by bob.cmds.archive, with durability switched off (the scratch archives need not
+    survive a power loss; one fsync per statement dominates the run time otherwise).  Logic is untouched."""
+
+    def __init__(self, real):
+        self._real = real
+
+    def __getattr__(self, k):
+        return getattr(self._real, k)
+
+    def connect(self, *a, **kw):
+        con = self._real.connect(*a, **kw)
+        con.execute("PRAGMA synchronous=OFF")
+        con.execute("PRAGMA journal_mode=MEMORY").fetchall()
+        return con
+
+
+def install_wrappers():
+    import bob.cmds.archive as m
+    if not isinstance(m.sqlite3, _Sqlite3Proxy):
+        m.sqlite3 = _Sqlite3Proxy(m.sqlite3)
+
+
 class World:
     def __init__(self):
         self.root = core.scratch_dir("c19a")
@@ -405,7 +441,7 @@ class World:
         os.makedirs(self.content)
         with open(os.path.join(self.content, "file"), "w") as f:
             f.write("payload\n")
-        facts = consts_c19.facts()
+        facts = source_facts()
         self.dir_re = re.compile(facts["dir_schema"])
         self.file_re = re.compile(facts["file_schema"])
         self.db_name = facts["db_name"]
@@ -558,6 +594,7 @@ def run_impl(root, c):
     """run one command in-process; returns dict(status, noaudit, list, raw)"""
     from bob.cmds.archive import doArchive
     from bob.errors import BobError
+    install_wrappers()
     old = os.getcwd()
     os.chdir(root)
     o, e = io.StringIO(), io.StringIO()
@@ -607,28 +644,35 @@ def run_case(case, transparency=True):
         present = {}      # name -> art spec (ground truth of what is on disk)
         prev_find = None  # (exprs text, selection) of an immediately preceding find on the same archive
         ci = -1
+        dirty = False     # the archive changed behind bob's back since the index was last brought up to date
         for ev in case["events"]:
             op = ev["op"]
             if op == "put":
                 w.put(ev["name"], ev["art"])
                 present[ev["name"]] = ev["art"]
                 prev_find = None
+                dirty = True
                 continue
             if op == "del":
                 if ev["name"] in present:
                     w.delete(ev["name"])
                     del present[ev["name"]]
+                    dirty = True
                 prev_find = None
                 continue
             if op == "touch":
                 if ev["name"] in present:
                     w.touch(ev["name"])
+                    dirty = True
                 continue
             ci += 1
             c = ev
             before = w.survivors()
+            specs = dict(present)
+            assert sorted(BIDS[n].hex() for n in specs) == before, "harness lost track of the archive content"
             fresh = None
-            if transparency and not c["noscan"]:
+            # (a copy costs a second parse of every expression: taken whenever the index is stale, else every 3rd command)
+            if transparency and not c["noscan"] and ci > 0 and (dirty or ci % 3 == 0):
                 froot = w.fresh_copy()
                 try:
                     fr = run_impl(froot, c)
@@ -637,8 +681,14 @@ def run_case(case, transparency=True):
                 finally:
                     shutil.rmtree(froot, ignore_errors=True)
             r = run_impl(w.root, c)
+            was_dirty = dirty
+            if not c["noscan"]:
+                dirty = False
             after = w.survivors()
             r["survivors"] = after
+            r["feat"] = []
+            if fresh is not None:
+                r["feat"].append("stale-index-vs-fresh-compared" if was_dirty else "warm-index-vs-fresh-compared")
             trace.append(r)
             gone = set(before) - set(after)
             for n in [n for n in present if BIDS[n].hex() in gone]:
@@ -665,10 +715,9 @@ def run_case(case, transparency=True):
                         break
             # ---- declarative retention (ground truth = what is on disk now; needs a scan)
             if not c["noscan"] and c["cmd"] in ("find", "clean"):
-                arts = {BIDS[n].hex(): true_vars(a) for n, a in case_present(before, present_before(case, ev)).items()
-                        if not a.get("noaudit")}
+                arts = {BIDS[n].hex(): true_vars(a) for n, a in specs.items() if not a.get("noaudit")}
                 refs = {BIDS[n].hex(): {BIDS[t].hex() for t in true_refs(a["deps"])}
-                        for n, a in case_present(before, present_before(case, ev)).items() if not a.get("noaudit")}
+                        for n, a in specs.items() if not a.get("noaudit")}
                 sel = ds_select(c["exprs"], arts)
                 empty_exit = c["fail"] and not before
                 if empty_exit:
@@ -683,6 +732,15 @@ def run_case(case, transparency=True):
                     must = set().union(*[m for m, _, _ in sel]) if sel else set()
                     may = set().union(*[y for _, y, _ in sel]) if sel else set()
                     exact = all(need == 0 or len(y) == need for _, y, need in sel)
+                    if any(0 < need < len(y) for _, y, need in sel):
+                        r["feat"].append("limit-boundary-tie")
+                    if any(x["limit"] is not None and len(m | y) > 0 and any(
+                            ds_string(["var", x["sort"] or "build.date"], arts[b]) is None for b in (m | y))
+                           for x, (m, y, _) in zip(c["exprs"], sel)):
+                        r["feat"].append("undefined-sort-key-retained")
+                    if any(x["limit"] is not None and x["limit"] < sum(1 for b in arts if ds_bool(x["ast"], arts[b]))
+                           for x in c["exprs"]):
+                        r["feat"].append("limit-cuts")
                     if c["cmd"] == "find":
                         S = set(r["list"])
                         if r["list"] != sorted(S):
@@ -716,6 +774,12 @@ def run_case(case, transparency=True):
                         kept = set(after) & indexed
                         if set(before) - indexed - set(after):
                             fail("clean-deleted-unindexed-file", names(sorted(set(before) - indexed - set(after))))
+                    if kept - must - may:
+                        r["feat"].append("kept-by-reference-only")
+                    if kept and indexed - kept:
+                        r["feat"].append("keeps-some-deletes-some")
+                    if (lo - must - may) - indexed:
+                        r["feat"].append("reference-to-absent-artifact")
                     if not (lo & indexed) <= kept:
                         fail("clean-deleted-retained", names(sorted((lo & indexed) - kept)))
                     if not kept <= hi:
@@ -730,28 +794,22 @@ def run_case(case, transparency=True):
     return trace, fails
 
 
+WORKERS = 4
+
+
+def run_case_safe(case):
+    import traceback
+    try:
+        trace, fails = run_case(case)
+        return trace, fails, None
+    except Exception:
+        return None, None, traceback.format_exc()[-2500:]
+
+
 def names(x):
     if isinstance(x, list):
         return [NAME_OF.get(i, i) for i in x]
     return x
-
-
-def present_before(case, upto):
-    """ground truth specs of the artifacts at the time of event `upto` (ignoring deletions by clean)"""
-    present = {}
-    for ev in case["events"]:
-        if ev is upto:
-            break
-        if ev["op"] == "put":
-            present[ev["name"]] = ev["art"]
-        elif ev["op"] == "del":
-            present.pop(ev["name"], None)
-    return present
-
-
-def case_present(before, specs):
-    """restrict the specs to the files really on disk"""
-    return {n: a for n, a in specs.items() if BIDS[n].hex() in before}
 
 
 # ------------------------------------------------------------------ signatures and shrinking
@@ -815,19 +873,19 @@ def shrink(case, f0, budget=70):
                 changed = True
                 break
     # simplify the remaining pieces
-    for i, e in enumerate(best["events"]):
-        if e["op"] == "cmd" and len(e.get("exprs", [])) > 1:
-            for j in range(len(e["exprs"])):
-                cand = copy.deepcopy(best)
-                del cand["events"][i]["exprs"][j]
-                if attempt(cand):
-                    break
-        if e["op"] == "put" and e["art"]["deps"]:
-            for j in range(len(e["art"]["deps"])):
+    for i in range(len(best["events"])):
+        e = best["events"][i]
+        if e["op"] == "cmd":
+            for j in range(len(e.get("exprs", [])) - 1, -1, -1):
+                if len(best["events"][i]["exprs"]) > 1:
+                    cand = copy.deepcopy(best)
+                    del cand["events"][i]["exprs"][j]
+                    attempt(cand)
+        if e["op"] == "put":
+            for j in range(len(e["art"]["deps"]) - 1, -1, -1):
                 cand = copy.deepcopy(best)
                 del cand["events"][i]["art"]["deps"][j]
-                if j < len(best["events"][i]["art"]["deps"]) and attempt(cand):
-                    break
+                attempt(cand)
     return best, bestf
 
 
@@ -926,25 +984,6 @@ def preamble():
     pre = "".join("Definition %s : bid := %s.\n" % (bname(n), L.by(b)) for n, b in BIDS.items())
     pre += "Definition bcommon : list (str * str) := %s.\n" % coq_sec(build_common())
     return pre
-
-
-# a deleted artifact that was touched after a clean removed it must not confuse the model literal:
-# the model history is derived from the same event list, with the same "ignore if absent" rules.
-def normalise(case):
-    """drop del/touch events of artifacts that are not on disk (so that model and disk see the same history)"""
-    present = set()
-    out = []
-    for ev in case["events"]:
-        if ev["op"] == "put":
-            present.add(ev["name"])
-            out.append(ev)
-        elif ev["op"] in ("del", "touch"):
-            # whether the file still exists may depend on earlier cleans: decided at run time by run_case,
-            # and for the model by `model_events` from the trace
-            out.append(ev)
-        else:
-            out.append(ev)
-    return {"events": out, "noise": case.get("noise", [])}
 
 
 def model_events(case, trace):
@@ -1050,38 +1089,44 @@ def run(ctx):
         return replay(ctx)
     n_hist = ctx.n(260, 6000)
     batch_sz = ctx.n(260, 600)
+    todo = [(lbl, c) for lbl, c in load_corpus()]
+    ctx.count("corpus", len(todo))
+    for k in range(1, n_hist + 1):
+        todo.append(("seed%d#%d" % (ctx.seed, k), gen_history(rng, maxn=ctx.n(12, 16), ncmd=ctx.n(7, 10))))
     batch = []
-    todo = [(lbl, c) for lbl, c in load_corpus()] + [(None, None)] * n_hist
-    k = 0
-    for label, case in todo:
-        if case is None:
-            k += 1
-            label = "seed%d#%d" % (ctx.seed, k)
-            case = gen_history(rng, maxn=ctx.n(12, 16), ncmd=ctx.n(7, 10))
-        else:
-            ctx.count("corpus")
-        trace, fails = run_case(case)
-        cmds = [e for e in case["events"] if e["op"] == "cmd"]
-        ctx.evaluated(len(trace))
-        for c, r in zip(cmds, trace):
-            ctx.count("cmd:%s%s%s" % (c["cmd"], "-dry" if c.get("dry") else "", "-n" if c.get("noscan") else ""))
-            ctx.count("status:" + r["status"])
-        for i in nontrivial_cmds(case, trace):
-            ctx.nontrivial((label, json.dumps(case, sort_keys=True), i))
-        ctx.count("mutations:" + ",".join(sorted({e["op"] for e in case["events"] if e["op"] != "cmd"})))
-        if len(ctx.cov["samples"]) < 3:
-            ctx.sample({"commands": [" ".join(cmd_argv(e)) for e in cmds][:4],
-                        "artifacts": len({e["name"] for e in case["events"] if e["op"] == "put"}),
-                        "first_results": [{k2: names(v) if isinstance(v, list) else v for k2, v in t.items() if k2 in ("status", "list", "survivors")} for t in trace[:2]]})
-        if fails:
-            ctx.count("oracle-failure:" + fails[0]["kind"])
-            if len(ctx.violations) < 6:
-                report(ctx, label, case, fails)
-        if not any(t["status"].startswith("internal") for t in trace):
-            batch.append((label, case, trace))
-        if len(batch) >= batch_sz:
-            check_batch(ctx, batch)
-            batch = []
+    from concurrent.futures import ProcessPoolExecutor
+    with ProcessPoolExecutor(max_workers=WORKERS) as pool:
+        results = pool.map(run_case_safe, [c for _, c in todo], chunksize=4)
+        for (label, case), (trace, fails, exc) in zip(todo, results):
+            if exc is not None:
+                ctx.count("harness-exception")
+                if not any(t["name"] == "harness-exception-in-history" for t in ctx.ties_broken):
+                    ctx.tie_broken("harness-exception-in-history", {"label": label, "case": case, "traceback": exc})
+                continue
+            cmds = [e for e in case["events"] if e["op"] == "cmd"]
+            ctx.evaluated(len(trace))
+            for c, r in zip(cmds, trace):
+                ctx.count("cmd:%s%s%s" % (c["cmd"], "-dry" if c.get("dry") else "", "-n" if c.get("noscan") else ""))
+                ctx.count("status:" + r["status"])
+                for ft in r.get("feat", []):
+                    ctx.count("feature:" + ft)
+            for i in nontrivial_cmds(case, trace):
+                ctx.nontrivial((label, json.dumps(case, sort_keys=True), i))
+            ctx.count("mutations:" + ",".join(sorted({e["op"] for e in case["events"] if e["op"] != "cmd"})))
+            if len(ctx.cov["samples"]) < 3:
+                ctx.sample({"commands": [" ".join(cmd_argv(e)) for e in cmds][:4],
+                            "artifacts": len({e["name"] for e in case["events"] if e["op"] == "put"}),
+                            "first_results": [{k2: names(v) if isinstance(v, list) else v for k2, v in t.items()
+                                               if k2 in ("status", "list", "survivors")} for t in trace[:2]]})
+            if fails:
+                ctx.count("oracle-failure:" + fails[0]["kind"])
+                if len(ctx.violations) < 6:
+                    report(ctx, label, case, fails)
+            if not any(t["status"].startswith("internal") for t in trace):
+                batch.append((label, case, trace))
+            if len(batch) >= batch_sz:
+                check_batch(ctx, batch)
+                batch = []
     if batch:
         check_batch(ctx, batch)
     ctx.note("proved (Coq, unbounded): see theorems; exercised only by the correspondence: sqlite ordering, the pyparsing grammar, "
